@@ -2,7 +2,7 @@ SPECIFICATION Spec
 CONSTANTS
   MaxFields = 2
   EmitCases = TRUE
-  Values = {"A", "M", "X", "U", "T", "S", "E"}
+  Values = {"A", "M", "X", "U", "T", "S", "E", "Z", "L"}
 INVARIANTS
   P_C06_TraceEq
   P_C06_Closing
